@@ -200,6 +200,74 @@ func candidateInvariants(fn *ssa.Function, hd *ssa.BasicBlock, site ssa.Instruct
 			})
 		}
 	}
+	// sentinel-conditioned candidates: a header φ that enters the loop with a constant c ("not found yet") and is
+	// assigned its real value once.  Candidate: φ >= c+1 → C, for C among the φ's own bounds and the site's goals.
+	// Convention (see verifiedInvariantsUncached): a nil substitution means "use as a fact" — the conclusion is added
+	// only when the premise is provable there; a non-nil one means "prove as a goal" — the premise is assumed.
+	for _, ph := range intPhis {
+		ph := ph
+		var c int64
+		n := 0
+		for e, pr := range hd.Preds {
+			if pr == hd || hd.Dominates(pr) {
+				continue
+			}
+			n++
+			k, ok := constInt(ph.Edges[e])
+			if !ok {
+				n = 99
+			}
+			c = k
+		}
+		if n != 1 {
+			continue
+		}
+		var concl []invariant
+		concl = append(concl, func(p *prover, s map[ssa.Value]ssa.Value) linExpr {
+			return with(p, s, func() linExpr { return p.lin(ph) })
+		})
+		seenB := map[ssa.Value]bool{}
+		for _, b := range bases {
+			b := b
+			if seenB[b] {
+				continue
+			}
+			seenB[b] = true
+			concl = append(concl, func(p *prover, s map[ssa.Value]ssa.Value) linExpr {
+				return with(p, s, func() linExpr { return p.lenOfBase(b).add(p.lin(ph), -1) })
+			})
+		}
+		if site != nil {
+			probe := newProver(fn)
+			gs, _, _, _ := boundsGoals(probe, site)
+			for gi := range gs {
+				gi := gi
+				concl = append(concl, func(p *prover, s map[ssa.Value]ssa.Value) linExpr {
+					return with(p, s, func() linExpr {
+						g2, _, _, _ := boundsGoals(p, site)
+						if gi < len(g2) {
+							return g2[gi]
+						}
+						return newLin(-1)
+					})
+				})
+			}
+		}
+		for _, cc := range concl {
+			cc := cc
+			out = append(out, func(p *prover, s map[ssa.Value]ssa.Value) linExpr {
+				prem := with(p, s, func() linExpr { return p.lin(ph).add(newLin(c+1), -1) })
+				if s == nil {
+					if !p.prove(prem) {
+						return newLin(0)
+					}
+					return cc(p, nil)
+				}
+				p.fact(prem)
+				return cc(p, s)
+			})
+		}
+	}
 	// a loop-carried slice that only grows: len(φ) >= 1, len(φ) >= len(init)
 	for _, d := range slicePhis {
 		d := d
